@@ -45,6 +45,7 @@ pub struct TExec {
     pub steps: usize,
     pub max_parked: usize,
     pub threads: usize,
+    pub killed_at: Option<(usize, Vec<String>)>,
 }
 
 fn unesc(s: &str) -> String {
@@ -96,6 +97,12 @@ fn scan(pid: u32, parked: &BTreeSet<i32>) -> Option<Vec<(i32, u64)>> {
 }
 
 pub fn run_tsched(p: &Prepared, c: &Cfg, prefix: &[u8], expect: &[Vec<String>], workers: usize) -> TExec {
+    run_tsched_kill(p, c, prefix, expect, workers, None)
+}
+
+/// As `run_tsched`; with `kill_at = Some(k)` the process is SIGKILLed when it has announced the calls of point k
+/// and before any of them is released (all threads are parked or idle at that instant).
+pub fn run_tsched_kill(p: &Prepared, c: &Cfg, prefix: &[u8], expect: &[Vec<String>], workers: usize, kill_at: Option<usize>) -> TExec {
     let sockp = p.env.sc.path("tsched.sock");
     let _ = std::fs::remove_file(&sockp);
     let listener = UnixListener::bind(&sockp).unwrap_or_else(|e| machinery_error(format!("bind {sockp:?}: {e}")));
@@ -130,7 +137,7 @@ pub fn run_tsched(p: &Prepared, c: &Cfg, prefix: &[u8], expect: &[Vec<String>], 
     let mut child = cmd.spawn().unwrap_or_else(|e| machinery_error(format!("spawn copia: {e}")));
     let pid = child.id();
     let mut conns: Vec<Conn> = Vec::new();
-    let mut ex = TExec { choices: Vec::new(), points: Vec::new(), labels: Vec::new(), out: CliOut { code: None, stdout: String::new(), stderr: String::new() }, steps: 0, max_parked: 0, threads: 0 };
+    let mut ex = TExec { choices: Vec::new(), points: Vec::new(), labels: Vec::new(), out: CliOut { code: None, stdout: String::new(), stderr: String::new() }, steps: 0, max_parked: 0, threads: 0, killed_at: None };
     let src_files: BTreeSet<&String> = p.src0.0.keys().collect();
     let logical = |p1: &str| -> String {
         let rel = p1.strip_prefix(&format!("{s}/")).or_else(|| p1.strip_prefix(&format!("{d}/"))).unwrap_or("");
@@ -253,6 +260,13 @@ pub fn run_tsched(p: &Prepared, c: &Cfg, prefix: &[u8], expect: &[Vec<String>], 
         }
         let enabled_names: Vec<String> = order.iter().map(|&i| names[i].clone()).collect();
         let k = ex.points.len();
+        if kill_at == Some(k) {
+            let _ = child.kill();
+            let _ = child.wait();
+            ex.killed_at = Some((k, enabled_names.clone()));
+            exit_code = Some(None);
+            break 'outer;
+        }
         let choice = if k < prefix.len() {
             if let Some(want) = expect.get(k) {
                 if *want != enabled_names {
@@ -413,4 +427,109 @@ pub fn replay_local(c: &Cfg, names: &[&str], detail: &Value) -> Vec<Violation> {
     }
     out.truncate(1);
     out
+}
+
+/// C09, local direction with parallel transfers: for every schedule within the preemption bound and EVERY point of
+/// it, the process is killed at that point; every destination path then holds its complete old or its complete new
+/// content and nothing outside the plan changed; the same command run again (free-running) delivers the plan.
+pub fn explore_local_kills(c: &Cfg, names: &[&str], bound: u32, workers: usize, cap: u64, nthreads: usize) -> (u64, u64, Vec<Violation>) {
+    // first collect the schedules (choices + expected enabled sets) with the ordinary explorer's recursion
+    let mut schedules: Vec<(Vec<u8>, Vec<Vec<String>>, usize)> = Vec::new();
+    let mut queue: Vec<(Vec<u8>, Vec<Vec<String>>)> = vec![(Vec::new(), Vec::new())];
+    while let Some((prefix, expect)) = queue.pop() {
+        if schedules.len() as u64 >= cap {
+            break;
+        }
+        let p = prepare(c, names, "e6k");
+        let ex = run_tsched(&p, c, &prefix, &expect, workers);
+        for i in prefix.len()..ex.points.len() {
+            let pt = &ex.points[i];
+            for alt in 1..pt.enabled.len() {
+                if pt.preemptions_before + u32::from(pt.current_enabled) <= bound {
+                    let mut ch = ex.choices[..i].to_vec();
+                    ch.push(alt as u8);
+                    queue.push((ch, ex.points[..=i].iter().map(|q| q.enabled.clone()).collect()));
+                }
+            }
+        }
+        let all_exp: Vec<Vec<String>> = ex.points.iter().map(|q| q.enabled.clone()).collect();
+        schedules.push((ex.choices.clone(), all_exp, prefix.len()));
+    }
+    // kill points: for each schedule, the points from its own deviation onwards (earlier ones belong to its parent)
+    let jobs: Vec<(usize, usize)> = schedules.iter().enumerate().flat_map(|(si, (ch, _, from))| (*from..=ch.len()).map(move |k| (si, k))).collect();
+    let next = AtomicU64::new(0);
+    let viols: Mutex<Vec<Violation>> = Mutex::new(Vec::new());
+    let nontrivial = AtomicU64::new(0);
+    std::thread::scope(|sc| {
+        for _ in 0..nthreads {
+            sc.spawn(|| loop {
+                let i = next.fetch_add(1, Ordering::Relaxed) as usize;
+                if i >= jobs.len() {
+                    break;
+                }
+                let (si, k) = jobs[i];
+                let (choices, expect, _) = &schedules[si];
+                if k >= choices.len() {
+                    continue; // after the last point the process just exits
+                }
+                let p = prepare(c, names, "e6k");
+                let ex = run_tsched_kill(&p, c, &choices[..k.min(choices.len())], &expect[..k.min(expect.len())], workers, Some(k));
+                if ex.killed_at.is_none() {
+                    continue;
+                }
+                let (d1, _) = crate::e5::snap(&p.env.dst());
+                let (s1, _) = crate::e5::snap(&p.env.src());
+                let det = json!({"config": cfg_name(c), "tsched_kill": {"choices": &choices[..k], "kill_point": k, "workers": workers}});
+                let what = format!("[{} under the thread scheduler, killed at point {k} with {:?} announced]", cfg_name(c), ex.killed_at.as_ref().map(|x| x.1.clone()).unwrap_or_default());
+                let mut bad: Option<(String, String)> = None;
+                if s1 != p.src0.0 {
+                    bad = Some(("source_modified".into(), "the source tree changed".into()));
+                }
+                if d1 != p.dst0.0 {
+                    nontrivial.fetch_add(1, Ordering::Relaxed);
+                }
+                for (path, e) in d1.iter().filter(|(k, _)| !k.ends_with(".copia-tmp")) {
+                    let old = p.dst0.0.get(path);
+                    let new = p.src0.0.get(path);
+                    let ok = old.is_some_and(|o| o.bytes == e.bytes) || new.is_some_and(|n| n.bytes == e.bytes);
+                    if !ok {
+                        bad = Some(("mixed_destination".into(), format!("destination {path} holds {} bytes: neither its pre-run content nor the source's", e.bytes.len())));
+                    }
+                }
+                for (path, e0) in &p.dst0.0 {
+                    if !p.src0.0.contains_key(path) && !c.delete && d1.get(path).map(|e| &e.bytes) != Some(&e0.bytes) {
+                        bad = Some(("outside_plan_touched".into(), format!("destination-only {path} changed although --delete was not given")));
+                    }
+                    if p.src0.0.contains_key(path) && !d1.contains_key(path) {
+                        bad = Some(("destination_removed".into(), format!("destination {path} existed before the run and is gone")));
+                    }
+                }
+                if bad.is_none() {
+                    // the same command again, free-running: must complete and deliver the plan (judged against the ORIGINAL pre-state)
+                    let out = crate::e5::run_sync(&p.env, c, &[], None);
+                    if out.code != Some(0) {
+                        bad = Some(("rerun_fails".into(), format!("running the same command again exits {:?}: {}", out.code, out.stderr.lines().last().unwrap_or(""))));
+                    } else {
+                        let (d2, _) = crate::e5::snap(&p.env.dst());
+                        for (path, sv) in &p.src0.0 {
+                            if d2.get(path).map(|e| (&e.bytes, e.secs)) != Some((&sv.bytes, sv.secs)) && !(p.dst0.0.get(path).is_some_and(|o| o.bytes.len() == sv.bytes.len() && o.secs == sv.secs)) {
+                                bad = Some(("rerun_differs".into(), format!("after the re-run destination {path} is not the source's content and mtime")));
+                            }
+                        }
+                        if d2.keys().any(|k| k.ends_with(".copia-tmp")) {
+                            bad = Some(("staging_left_behind".into(), "a staging file survives the completed re-run".into()));
+                        }
+                    }
+                }
+                if let Some((kind, m)) = bad {
+                    if let Ok(mut g) = viols.lock() {
+                        if g.len() < 4 {
+                            g.push(Violation::new(&kind, format!("{what}: {m}"), det).with("direction", json!("local")).with("engine", json!("tsched-kill")));
+                        }
+                    }
+                }
+            });
+        }
+    });
+    (schedules.len() as u64, jobs.len() as u64, viols.into_inner().unwrap_or_default())
 }
